@@ -104,14 +104,26 @@ example :
   ⟨by decide, by decide, by decide, ⟨rfl, by decide⟩, by decide, by decide⟩
 
 /-- What the stopping operation leaves behind once the old sequence is out of the way: the new sequence (not started
-yet) / no sequence; the expression flag; the port disabled. -/
+yet) / no sequence; the expression flag; the port disabled (unless the driver's `handle_disable()` raises without
+even suspending, in which case `disable()` has already put the flag back). -/
 theorem stop_then_apply (s : St) (opId : Nat) :
     (∀ vs ds r, vs ≠ [] → (finishOp s opId (.patchSeq vs ds r)).port.seq
         = some ⟨s.nextId, vs, ds, r, 0, .pending .start false⟩) ∧
     (∀ ds r, (finishOp s opId (.patchSeq [] ds r)).port.seq = none) ∧
     (∀ b, (finishOp s opId (.setExpr b)).port.seq = none ∧ (finishOp s opId (.setExpr b)).port.hasExpr = b) ∧
-    ((finishOp s opId (.setEnabled false)).port.seq = none ∧ (finishOp s opId (.setEnabled false)).port.enabled = false) :=
+    ((finishOp s opId (.setEnabled false)).port.seq = none ∧
+      ((s.disLat = 0 ∧ s.disRaise = true) ∨ (finishOp s opId (.setEnabled false)).port.enabled = false)) :=
   finishOp_effect s opId
+
+/-- The driver's `handle_disable()` is a suspension point *behind* the stop (`disable()` cancels the sequence, clears the
+flag and only then awaits the driver): when it eventually returns or raises, the sequence is as it was — gone —; if it
+raises, the port is enabled again (and the API call fails). Since `cancel_is_immediate` holds for every state and every
+number of iterations, the values of the stopped sequence stay frozen however long the driver takes. -/
+theorem driver_hook_comes_after_the_stop (s : St) (opId : Nat) :
+    (hookDone s opId false).port.seq = s.port.seq ∧
+    (s.disRaise = true → (hookDone s opId false).port.enabled = true) ∧
+    (s.disRaise = false → (hookDone s opId false).port.enabled = s.port.enabled) :=
+  hookDone_effect s opId
 
 /-- **Refusals.** For well-sized lists: a length mismatch is refused (`invalid-field: delays`); a value outside the
 port's domain is refused (`invalid-field: values`); otherwise a disabled port refuses with `port-disabled`, an enabled
